@@ -1,4 +1,4 @@
 #!/bin/bash
 # overlay.sh <builddir> <overlay.json> <repo>: record every file effect of lib/chain and lib/utxo.
 set -e
-python3 /verif/internal/crashfs/mkoverlay.py "$1" "$2" "$3" lib/chain lib/utxo
+python3 /verif/internal/crashfs/mkoverlay.py "$1" "$2" "$3" lib/chain lib/utxo >&2
